@@ -927,6 +927,56 @@ func ruleCRASH3(c *Ctx) {
 			}
 		}
 	}
+	// single-character escapes looked up in a constant table *before* the switch:
+	//   if v, ok := table[selector]; ok { write(v); advance; continue }
+	ast.Inspect(ue.Body, func(n ast.Node) bool {
+		ifs, ok := n.(*ast.IfStmt)
+		if !ok || ifs.Init == nil || containsNode(esw, ifs) {
+			return true
+		}
+		as, ok := ifs.Init.(*ast.AssignStmt)
+		if !ok || len(as.Lhs) != 2 || len(as.Rhs) != 1 || usesObj(info, ifs.Cond) == nil || usesObj(info, ifs.Cond) != usesObj(info, as.Lhs[1]) {
+			return true
+		}
+		key, entries, isTbl := constTable(p, pk, as.Rhs[0])
+		if !isTbl || !sameExpr(resolveVia(info, ueDefs, key), resolveVia(info, ueDefs, esw.Tag)) {
+			return true
+		}
+		// the hit must leave the iteration (continue) so that the switch's panic is not reached
+		if len(ifs.Body.List) == 0 {
+			return true
+		}
+		if br, isBr := ifs.Body.List[len(ifs.Body.List)-1].(*ast.BranchStmt); !isBr || br.Tok != token.CONTINUE {
+			return true
+		}
+		env := map[string]int64{}
+		for k2, v2 := range defaults {
+			env[k2] = v2
+		}
+		adv, okAdv := int64(0), true
+		for _, st := range append(append([]ast.Stmt{}, ifs.Body.List...), tail...) {
+			if _, isBr := st.(*ast.BranchStmt); isBr {
+				continue
+			}
+			d, ok := advanceOf(st, env)
+			if !ok {
+				okAdv = false
+			}
+			adv += d
+		}
+		for _, en := range entries {
+			var kv int64
+			if _, err := fmt.Sscan(en.KeyVal, &kv); err != nil {
+				continue
+			}
+			handled[kv] = 0
+			if !okAdv || adv != 2 {
+				okWidths = false
+				widthWhy = fmt.Sprintf("escape %q (looked up in a table before the switch) consumes 2 characters but one trip through the loop advances the index by %d", rune(kv), adv)
+			}
+		}
+		return true
+	})
 	c.check(okWidths, rule, "parser.unescape/index-arithmetic", p.Pos(esw.Pos()), "each escape arm advances the index by exactly the characters it consumed", "escape arm arithmetic is inconsistent: "+widthWhy)
 
 	gt, err := decodeGenTables(p, "internal/parser")
